@@ -198,6 +198,49 @@ fn check_unary(c: &PRep) -> CaseResult {
     pass(c.class() != "affine", c.class())
 }
 
+/// A boundary point of the curve (see sm2util::edge_points) in the representation Z = lambda, with a scalar.
+#[derive(Serialize, Deserialize, Hash, Debug, Clone)]
+pub struct EdgeOp {
+    pub point: usize,
+    pub lambda: Hex,
+    pub scalar: Hex,
+}
+
+fn check_edge_point(c: &EdgeOp) -> CaseResult {
+    let pr = r2::params();
+    let eps = edge_points();
+    let (label, x, y) = &eps[c.point % eps.len()];
+    let p_ref = r2::pt(x, y);
+    let mut l = from_be(&c.lambda) % pr.p;
+    if l.is_zero() {
+        l = BigUint::one();
+    }
+    let p_lib = lib_point(&p_ref, &l);
+    let desc = format!("P = edge point {} x={:x} y={:x} (Z={:x})", label, x, y, l);
+    ensure!(catch(|| p_lib.is_valid()).map_err(|e| Fail { key: "entry=Point::is_valid outcome=panic".into(), detail: e })?, "entry=Point::is_valid outcome=false-on-curve-point", "{}", desc);
+    let d = catch(|| p_lib.point_dbl()).map_err(|e| Fail { key: "entry=Point::point_dbl outcome=panic".into(), detail: e })?;
+    check_lib_point("Point::point_dbl", &d, &pr.curve.dbl(&p_ref), &desc)?;
+    let g = r2::g_mul(&BigUint::one());
+    for (what, q_ref, q_lib) in [("P+G", g.clone(), lib_point(&g, &BigUint::one())), ("P+P", p_ref.clone(), lib_point(&p_ref, &BigUint::from(2u32))), ("P+(-P)", pr.curve.neg(&p_ref), lib_point(&pr.curve.neg(&p_ref), &BigUint::one()))] {
+        let got = catch(|| p_lib.point_add(&q_lib)).map_err(|e| Fail { key: "entry=Point::point_add outcome=panic".into(), detail: format!("{} {}: {}", what, desc, e) })?;
+        check_lib_point("Point::point_add", &got, &pr.curve.add(&p_ref, &q_ref), &format!("{} {}", what, desc))?;
+    }
+    let k = from_be(&c.scalar);
+    let got = catch(|| p_lib.scalar_mul(&scalar_limbs(&k))).map_err(|e| Fail { key: "entry=Point::scalar_mul outcome=panic".into(), detail: format!("k={:x} {}: {}", k, desc, e) })?;
+    check_lib_point("Point::scalar_mul", &got, &pr.curve.mul(&(&k % &pr.n), &p_ref), &format!("k={:x} {}", k, desc))?;
+    // encodings both ways
+    for compressed in [false, true] {
+        let enc = if compressed { r2::encode_compressed(&p_ref) } else { r2::encode_uncompressed(&p_ref) };
+        let u = catch(|| p_lib.to_byte_be(compressed)).map_err(|e| Fail { key: "entry=Point::to_byte_be outcome=panic".into(), detail: e })?;
+        ensure!(u == enc, "entry=Point::to_byte_be outcome=wrong-encoding", "{} compressed={} {}", desc, compressed, hex::encode(&u));
+        match outcome(|| gm_sm2::verif_hooks::point_from_byte(&enc)) {
+            Outcome::Ok(q) => check_lib_point("Point::from_byte", &q, &p_ref, &desc)?,
+            o => return fail("entry=Point::from_byte input=valid outcome=rejected", format!("{} encoding {}: {}", desc, hex::encode(&enc), o.describe())),
+        }
+    }
+    pass(true, format!("edge/{}", if l.is_one() { "affine" } else { "jacobian" }))
+}
+
 #[derive(Serialize, Deserialize, Hash, Debug, Clone)]
 pub struct SM {
     pub p: PRep,
@@ -454,6 +497,16 @@ pub fn run(ctx: &Ctx) {
     ctx.generated("scalar_mul_generated", "proptest (P rep, scalar from the edge-biased 256-bit generator)", ctx.tier.pick(1_500, 20_000), || {
         (prep(), gen::scalar256(&pr.n)).prop_map(|(p, scalar)| SM { p, scalar })
     }, check_scalar_mul);
+
+    ctx.listed("edge_points", "boundary points of the curve (x next to 0, n, p, 2^256-p, powers of two; Montgomery x with all-ones / zero limbs; y with a leading zero byte) in affine and two Jacobian representations: dbl, add (G, itself, its negative), scalar_mul, encode, decode", || {
+        let mut v = Vec::new();
+        for point in 0..edge_points().len() {
+            for (j, lambda) in [BigUint::one(), BigUint::from(2u32), from_be(&expand_bytes(point as u64 ^ 0xed11, 32))].iter().enumerate() {
+                v.push(EdgeOp { point, lambda: gen::hex32(lambda), scalar: Hex(expand_bytes((point * 3 + j) as u64 ^ 0xed12, 32)) });
+            }
+        }
+        v
+    }, check_edge_point);
 
     ctx.exhaustive("scalar_mul_nibbles", "every nibble value 1..15 at every of the 64 window positions, on an affine and a Jacobian point", || {
         let mut v = Vec::new();
